@@ -8,7 +8,6 @@ import (
 	"net"
 	"os"
 	"os/exec"
-	"path/filepath"
 	"strings"
 	"sync"
 	"time"
@@ -205,7 +204,12 @@ func c18Conf(c *fw.Case) (o fw.Outcome) {
 		return
 	}
 	defer os.RemoveAll(dir)
-	os.WriteFile(filepath.Join(dir, "config.yaml"), []byte(y), 0o644)
+	placed, err := procdrv.PlaceConfig(dir, []byte(y), pick(r, 0, 0, 0, 1, 2, 3, 4, 5))
+	if err != nil {
+		o.Inconcl("%v", err)
+		return
+	}
+	o.Tag("placed:" + placed)
 	exe, _ := os.Executable()
 	ctx, cancel := context.WithTimeout(context.Background(), 2*time.Minute)
 	defer cancel()
@@ -264,7 +268,7 @@ func c18Wire(c *fw.Case) (o fw.Outcome) {
 	v := pick(r, [5]int{1, 1, 0, 0, 1}, [5]int{2, 1, 1, 1, 0}, [5]int{1, 0, 0, 0, 0})
 	cfg.Reg, cfg.Pdu, cfg.Svc, cfg.Rel, cfg.Dereg = v[0], v[1], v[2], v[3], v[4]
 	ch := genChoices(r, cfg.Reg)
-	res := procdrv.Run(workDir(), emuPath(), procdrv.Spec{Cfg: cfg, Choices: ch, Fault: refamf.Fault{At: -1}, Args: []string{"-t"}, Watchdog: 30*time.Second + 8*nominalDuration(cfg)})
+	res := procdrv.Run(workDir(), emuPath(), procdrv.Spec{Cfg: cfg, Choices: ch, Fault: refamf.Fault{At: -1}, Args: []string{"-t"}, Watchdog: 30*time.Second + 8*nominalDuration(cfg), ConfigPlacement: pick(r, 0, 0, 1, 2, 3)})
 	o.Tag("wire")
 	o.Input = fmt.Sprintf("wire case: config=%s connect=(%s:%d from %s:%d) vector=%v", cfgSummary(cfg), cfg.AmfIP, cfg.AmfPort, cfg.StgIP, cfg.StgPort, v)
 	o.Digest = fw.HashS(o.Input)
